@@ -311,6 +311,29 @@ impl Listener<ClientState> for RustStates {
     }
 }
 
+fn connected_count(log: &Arc<Mutex<Vec<String>>>) -> usize {
+    log.lock().unwrap().iter().filter(|s| s.as_str() == "Connected").count()
+}
+
+/// wait until the channel has re-established its connection after it was dropped: one more
+/// Connected entry than before, and Connected is the latest state
+fn wait_reconnected(log: &Arc<Mutex<Vec<String>>>, before: usize, max: Duration) -> bool {
+    let t0 = Instant::now();
+    loop {
+        {
+            let g = log.lock().unwrap();
+            let n = g.iter().filter(|s| s.as_str() == "Connected").count();
+            if n > before && g.last().map(|s| s == "Connected").unwrap_or(false) {
+                return true;
+            }
+        }
+        if t0.elapsed() > max {
+            return false;
+        }
+        std::thread::sleep(Duration::from_millis(1));
+    }
+}
+
 fn wait_state(log: &Arc<Mutex<Vec<String>>>, want: &str, max: Duration) -> bool {
     let t0 = Instant::now();
     loop {
@@ -476,23 +499,58 @@ fn client_table(rep: &mut SearchReport, seed: u64, only: Option<&serde_json::Val
         if !wait_state(&rust_states, "Connected", long) || !wait_state(&fc.states, "Connected", long) {
             return Err(format!("INFRA: channels not connected before scenario {}", i));
         }
+        let drops_connection = matches!(*outcome, "close" | "bad_header");
         // Rust API
         peer.seen.lock().unwrap().clear();
+        let rust_before = connected_count(&rust_states);
         let t0 = Instant::now();
-        let rust = rt.block_on(rust_run(&channel, s));
+        let mut rust = rt.block_on(rust_run(&channel, s));
         let rust_took = t0.elapsed();
-        let rust_req = peer.seen.lock().unwrap().clone();
+        let mut rust_req = peer.seen.lock().unwrap().clone();
+        if drops_connection && !wait_reconnected(&rust_states, rust_before, long) {
+            return Err(format!("INFRA: Rust channel did not reconnect after scenario {}", i));
+        }
         // C ABI
         peer.seen.lock().unwrap().clear();
+        let ffi_before = connected_count(&fc.states);
         let t0 = Instant::now();
-        let (rc, slot) = ffi_submit(fc.ch, s);
+        let (rc, mut slot) = ffi_submit(fc.ch, s);
         if rc != 0 {
             fail(rep, format!("scenario {}: C call returned {:?} for a valid request", case, ffi::ParamError::from(rc)), case);
             return Ok(());
         }
-        let got = wait_slot(&slot, long);
+        let mut got = wait_slot(&slot, long);
         let ffi_took = t0.elapsed();
-        let ffi_req = peer.seen.lock().unwrap().clone();
+        let mut ffi_req = peer.seen.lock().unwrap().clone();
+        if drops_connection && !wait_reconnected(&fc.states, ffi_before, long) {
+            return Err(format!("INFRA: C-ABI channel did not reconnect after scenario {}", i));
+        }
+        // real time: a disagreement is re-examined once after both channels are known to be
+        // connected (a reconnect in progress makes one side answer NoConnection)
+        if got.len() == 1 && (got[0] != rust || rust_req != ffi_req) {
+            std::thread::sleep(Duration::from_millis(100));
+            wait_state(&rust_states, "Connected", long);
+            wait_state(&fc.states, "Connected", long);
+            let rb = connected_count(&rust_states);
+            peer.seen.lock().unwrap().clear();
+            rust = rt.block_on(rust_run(&channel, s));
+            rust_req = peer.seen.lock().unwrap().clone();
+            if drops_connection {
+                wait_reconnected(&rust_states, rb, long);
+            }
+            let fb = connected_count(&fc.states);
+            peer.seen.lock().unwrap().clear();
+            let (rc2, slot2) = ffi_submit(fc.ch, s);
+            if rc2 == 0 {
+                got = wait_slot(&slot2, long);
+                slot = slot2;
+            }
+            ffi_req = peer.seen.lock().unwrap().clone();
+            if drops_connection {
+                wait_reconnected(&fc.states, fb, long);
+            }
+            *rep.stats.labels.entry("flaky:scenario_rerun".to_string()).or_insert(0) += 1;
+        }
         rep.stats.evaluations += 1;
         if got.len() != 1 {
             fail(rep, format!("scenario {}: completion callback fired {} times", case, got.len()), case);
